@@ -1,6 +1,13 @@
 // C13: run the real parse entry points on a generated option set.  Case layout: see coq/C13/Model.v (run_case).
-//   nopts (<name> alias kind neg)*  nalias (<name> idx)*  allowUnreg flags posmode <posname> mode payload [intent...]
+//   nopts (<name> alias kind neg)*  nalias (<name> idx)*  allowUnreg flags posmode <posname> mode payload [intent...] [REFUSED]
+//   intent  = 0 | 1 class npairs (id <value>)* nrem <tok>*        (the generator's intent: skipped here, read by the oracle)
+//   REFUSED = nref (pos npiece (<name> alias kind neg)^npiece)*   adds the context must REFUSE (DuplicateOption; the caller catches it and
+//             carries on): piece j is handed to OptionContext::add after `pos` of the case's options have been accepted; its first option
+//             clashes with an accepted one (long name, alias, or both), so nothing of the piece may become an option.  The case's own options
+//             are handed over in the pieces between those adds.  The model (coq/C13/Model.v) ignores everything behind the payload: the
+//             refused names are simply not options of the context.
 // Observation: 0 npairs (id <value>)* [nrem <tok>*]  |  error class 1 Unknown 2 Ambiguous 3 missing 4 extra 5 format | 8 context refused
+//              | 7 an add that had to be refused was accepted / changed the option list
 #include "common.h"
 #include <potassco/program_opts/program_options.h>
 #include <potassco/program_opts/typed_value.h>
@@ -52,11 +59,52 @@ static void describe(Po::Value* v, ll kind, unsigned sel) {
 		default: break;
 	}
 }
+// position of the REFUSED trailer (behind payload and intent), or v.size() if there is none / the case is cut short
+static size_t findTrailer(const std::vector<ll>& v) {
+	size_t p = 0; bool ok = true;
+	auto num = [&]() -> ll { if (p < v.size()) return v[p++]; ok = false; return 0; };
+	auto str = [&]() { ll n = num(); if (n < 0 || (size_t)n > v.size() - p) { ok = false; return; } p += (size_t)n; };
+	ll n = num(); for (ll i = 0; ok && i < n; ++i) { str(); num(); num(); num(); }
+	ll na = num(); for (ll i = 0; ok && i < na; ++i) { str(); num(); }
+	num(); num(); num(); str();
+	ll mode = num();
+	if (mode == 0 || mode == 1) { ll nt = num(); for (ll i = 0; ok && i < nt; ++i) str(); }
+	else str();
+	if (!ok || p >= v.size()) return v.size();
+	if (num() == 1) {
+		num(); ll np = num(); for (ll i = 0; ok && i < np; ++i) { num(); str(); }
+		ll nr = num(); for (ll i = 0; ok && i < nr; ++i) str();
+	}
+	return ok ? p : v.size();
+}
+struct RefusedPiece { size_t pos; std::vector<Po::SharedOptPtr> opts; bool newGroup; };
+static int  sinkRI[64];
+static bool sinkRB[64];
 int main() {
 	Case c; Obs o;
 	while (readCase(c)) {
+		// the adds that must be refused (trailer)
+		std::vector<RefusedPiece> refused;
+		{
+			Case t; t.v = c.v; t.p = findTrailer(c.v);
+			size_t nref = t.more() ? (size_t)t.next() : 0;
+			for (size_t r = 0; r != nref && t.more(); ++r) {
+				RefusedPiece rp; rp.pos = (size_t)t.next(); rp.newGroup = (r % 2) == 1;
+				size_t np = (size_t)t.next();
+				for (size_t j = 0; j != np && t.more(); ++j) {
+					std::string nm = getStr(t);
+					char a = (char)t.next(); ll kind = t.next(); ll neg = t.next();
+					size_t sk = (r * 7 + j) & 63;
+					Po::Value* v = kind == 0 ? static_cast<Po::Value*>(Po::flag(sinkRB[sk])) : static_cast<Po::Value*>(Po::storeTo(sinkRI[sk]));
+					if (kind == 1) v->implicit("1");
+					if (neg) v->negatable();
+					rp.opts.push_back(Po::SharedOptPtr(new Po::Option(nm, a, "refused", v)));
+				}
+				refused.push_back(rp);
+			}
+		}
 		Po::OptionContext ctx("ctx");
-		Po::OptionGroup g;
+		std::vector<Po::SharedOptPtr> mainOpts;
 		size_t n = (size_t)c.next();
 		for (size_t i = 0; i != n && c.more(); ++i) {
 			std::string nm = getStr(c);
@@ -67,10 +115,33 @@ int main() {
 			// so a replay is deterministic).  Only implicit() may change how the option is parsed; arg()/defaultsTo() must not.
 			describe(v, kind, (unsigned)(i * 7 + nm.size() * 3 + (unsigned char)a + n + (neg ? 5 : 0)));
 			if (neg) v->negatable();
-			g.addOption(Po::SharedOptPtr(new Po::Option(nm, a, "", v)));
+			mainOpts.push_back(Po::SharedOptPtr(new Po::Option(nm, a, "", v)));
 		}
-		bool built = true;
-		try { ctx.add(g); } catch (const Po::DuplicateOption&) { built = false; }
+		// Build the context: the case's options in pieces (one OptionContext::add per stretch between two refused adds; without a trailer
+		// exactly one add of one group, as before), the refused pieces in between.
+		bool built = true, anomaly = false;
+		{
+			size_t done = 0;
+			for (size_t stop = 0; built && stop <= mainOpts.size(); ++stop) {
+				bool any = false;
+				for (size_t r = 0; r != refused.size(); ++r) { if (std::min(refused[r].pos, mainOpts.size()) == stop) any = true; }
+				if (!any && stop != mainOpts.size()) continue;
+				if (done != stop || refused.empty()) {
+					Po::OptionGroup g;
+					for (; done != stop; ++done) g.addOption(mainOpts[done]);
+					try { ctx.add(g); } catch (const Po::DuplicateOption&) { built = false; break; }
+				}
+				for (size_t r = 0; r != refused.size(); ++r) {
+					if (std::min(refused[r].pos, mainOpts.size()) != stop) continue;
+					Po::OptionGroup piece(refused[r].newGroup ? "Refused" : "");
+					for (size_t j = 0; j != refused[r].opts.size(); ++j) piece.addOption(refused[r].opts[j]);
+					size_t before = ctx.size();
+					bool thrown = false;
+					try { ctx.add(piece); } catch (const Po::DuplicateOption&) { thrown = true; }
+					if (!thrown || ctx.size() != before) anomaly = true;
+				}
+			}
+		}
 		size_t na = (size_t)c.next();
 		for (size_t i = 0; i != na && c.more(); ++i) {
 			std::string nm = getStr(c); size_t idx = (size_t)c.next();
@@ -81,6 +152,7 @@ int main() {
 		Po::PosOption po = g_posMode == 0 ? 0 : &posHandler;
 		ll mode = c.next();
 		if (!built) { o.add(8); o.flush(); continue; }
+		if (anomaly) { o.add(7); o.flush(); continue; }
 		try {
 			if (mode == 0 || mode == 1) {
 				size_t nt = (size_t)c.next();
